@@ -246,6 +246,123 @@ def task_coupled_ops(ctx):
     ctx.undecided_clause("numerical benignity of the allowed couplings (Nnot == 0 exits, DIIS resets, SP2's shared while loop); MD-trajectory independence beyond one step (C08/C20 prove one step); CIS batches")
 
 
+
+def replay_fermi_rows(model):
+    """real Fermi_Q (finite electronic temperature, 1500 K) on the Fock matrix of OH-: alone, and zero-padded to the size of a
+    larger batch mate.  The padded orbital slots must not take part in fixing the chemical potential: same mu, same occupations."""
+    import torch
+    from seqm.seqm_functions.fermi_q import Fermi_Q
+
+    torch.set_default_dtype(torch.float64)
+    g = torch.Generator().manual_seed(3)
+    A = torch.randn(5, 5, generator=g)
+    H = (A + A.T) * 2.0 + 6.0 * torch.eye(5)          # 5 physical orbitals (one heavy atom + one hydrogen), levels around +6 eV (anion-like)
+    # block layout of a molsize-2 molecule: atoms 0 (heavy, 4 orbitals) and 1 (hydrogen, 1 orbital + 3 padding slots)
+    def embed(Hphys, molsize):
+        n = 4 * molsize
+        out = torch.zeros(1, n, n)
+        idx = [0, 1, 2, 3, 4]
+        for a, ia in enumerate(idx):
+            for b, ib in enumerate(idx):
+                out[0, ia, ib] = Hphys[a, b]
+        return out
+    kB = 8.61739e-5
+    nocc = torch.tensor([4])
+    one, h1 = torch.tensor([1]), torch.tensor([1])
+    alone = Fermi_Q(embed(H, 2), 1500.0, nocc, one, h1, kB, 0)
+    # in a batch with a molecule of 2 heavy atoms + 1 hydrogen (9 orbitals): molecule 0 gets 4 padded eigenvalue columns
+    A2 = torch.randn(9, 9, generator=g)
+    H2 = (A2 + A2.T) - 8.0 * torch.eye(9)
+    big = torch.zeros(2, 12, 12)
+    big[0, :5, :5] = H
+    big[1, :9, :9] = H2
+    # layouts: molecule 0 = heavy, hydrogen, padding ; molecule 1 = heavy, heavy, hydrogen
+    both = Fermi_Q(big, 1500.0, torch.tensor([4, 6]), torch.tensor([1, 2]), torch.tensor([1, 1]), kB, 0)
+    mu_alone, mu_batch = float(alone[5][0, 0]), float(both[5][0, 0])
+    f_alone, f_batch = alone[4][0, :5], both[4][0, :5]
+    dev = max(abs(mu_alone - mu_batch), float((f_alone - f_batch).abs().max()))
+    return {"reproduced": bool(dev > 1e-8), "mu_alone": mu_alone, "mu_in_batch": mu_batch, "occupations_alone": f_alone.tolist(), "occupations_in_batch": f_batch.tolist(), "padded_occupations_in_batch": both[4][0, 5:].tolist()}
+
+
+def task_fermi_rows(ctx):
+    """Fermi_Q (finite electronic temperature occupations, used by the KSA drivers): one Newton step for the chemical potential of
+    molecule m is mu + (N_m - sum_phys f_i) / max(tiny, sum_phys beta f_i (1 - f_i)) with f_i = sigmoid(-beta (e_i - mu)) over
+    molecule m's PHYSICAL orbitals only -- zero-padded orbital slots and other molecules do not enter; the occupations returned are
+    f_i on the physical orbitals and 0 on the padding; the density is 2 Q f Q^T.  Real function, eigensolver and unpack replaced by
+    recorders; the path with exactly one Newton update (guided) and the path with none."""
+    import seqm.seqm_functions.fermi_q as FQ
+    from contracts.C07_differentiability import _quiet
+
+    FQM = "seqm.seqm_functions.fermi_q"
+    fn = ctx.under_contract(FQM + ":Fermi_Q", stubs=["sym_eig_trunc", "unpack"])
+    M = 3
+    rec = {}
+    rep = []
+    rp = lambda mdl: (rep or rep.append(_quiet(replay_fermi_rows)) or rep)[0]
+    T, kB = real("Tel"), real("kB")
+
+    def eig_stub(H0, nHeavy, nHydro, Nocc, eig_only=False):
+        rec["e"] = st.symbolic((2, M), "e")
+        rec["Q"] = st.symbolic((2, M, M), "Q")
+        return rec["e"], rec["Q"]
+
+    def unpack_stub(D, nh, nhy, size):
+        rec["unpacked"] = D.clone()
+        return D
+
+    for updates in (1, 0):
+        count = [0]
+
+        def guide(n):
+            count[0] += 1
+            return count[0] > updates  # `all converged` is False for the first `updates` iterations
+
+        def thunk():
+            count[0] = 0
+            H0 = st.symbolic((2, 4, 4), "H")
+            return fn(H0, T, st.tensor([1, 1]), st.tensor([0, 0]), st.tensor([3, 2]), kB, 0)
+
+        ex = ctx.explore(thunk, stubs={FQM + ":sym_eig_trunc": eig_stub, FQM + ":unpack": unpack_stub}, name="Fermi_Q[%d update(s)]" % updates, guide=guide, constants={})
+        if len(ex.paths) != 1 or ex.paths[0].raised is not None:
+            p0 = ex.paths[0] if ex.paths else None
+            if p0 is not None and isinstance(p0.raised, Unmodelled):
+                raise p0.raised
+            ctx.error("fermi_rows.paths[%d]" % updates, "expected one path: %r %s" % ([p.raised for p in ex.paths], p0.notes.get("traceback", "")[-800:] if p0 else ""))
+            continue
+        p = ex.paths[0]
+        D0, S_, QQ, e, Fe, mu, mask = p.value
+        beta = 1 / (kB * T)
+        norb = [3, 2]
+        tag = "fermi_rows[%d-update]" % updates
+        for m in range(2):
+            mu0 = (rec["e"].a[m, 0] + rec["e"].a[m, 1]) / 2
+            f0 = [st.sigmoid(st.T(np.array([-beta * (rec["e"].a[m, i] - mu0)], dtype=object), st.float64, True)).a[0] for i in range(norb[m])]
+            if updates:
+                tiny = S(E.frac_of_float(1e-30))
+                den = sum((beta * f * (1 - f) for f in f0), S(0))
+                den = Sym(E.ite((den >= tiny).n, den.n, tiny.n))
+                mu_spec = mu0 + (1 - sum(f0, S(0))) / den
+            else:
+                mu_spec = mu0
+            ctx.prove_eq("%s.mu[%d]=Newton-step-over-its-own-physical-orbitals" % (tag, m), mu.a[m, 0], mu_spec, pc=p.pc, replay=rp, classify=lambda m_, r: "padding-enters-the-chemical-potential")
+            foreign = {v.val for v in E.free_vars(mu.a[m, 0].n)} & ({"e_%d_%d" % (1 - m, i) for i in range(M)} | {"e_%d_%d" % (m, i) for i in range(norb[m], M)})
+            (ctx.ok if not foreign else ctx.fail)("%s.mu[%d].mentions-only-its-own-physical-levels" % (tag, m), "frame" if not foreign else "mentions %s" % sorted(foreign), **({} if not foreign else {"replay": rp(None)}))
+            # occupations: f on the physical orbitals at the chemical potential of the LAST evaluation (mu0 after one update: the
+            # loop evaluates f before it updates mu; with one update the second evaluation uses the updated mu)
+            for i in range(M):
+                if i < norb[m]:
+                    want = st.sigmoid(st.T(np.array([-beta * (rec["e"].a[m, i] - mu.a[m, 0])], dtype=object), st.float64, True)).a[0]
+                    ctx.prove_eq("%s.f[%d,%d]=sigmoid(-beta(e-mu))" % (tag, m, i), Fe.a[m, i], want, pc=p.pc, replay=rp)
+                else:
+                    ctx.prove_eq("%s.f[%d,%d]=0-on-padding" % (tag, m, i), Fe.a[m, i], S(0), pc=p.pc, replay=rp)
+            for a in range(M):
+                for b in range(M):
+                    want = 2 * sum((rec["Q"].a[m, a, i] * Fe.a[m, i] * rec["Q"].a[m, b, i] for i in range(M)), S(0))
+                    ctx.prove_eq("%s.D[%d][%d,%d]=2 Q f Q^T" % (tag, m, a, b), D0.a[m, a, b], want, pc=p.pc)
+    ctx.assume_note("fermi_rows: batch of two molecules with 3 and 2 physical orbitals (one padded slot), one electron pair each; eigenpairs are free symbols (A2); two paths: no Newton update, exactly one")
+    ctx.undecided_clause("convergence of the Newton iteration for the chemical potential; the batch-wide exit test keeps updating an already converged molecule while another is not (within occ_tol)")
+
+
 def replay_density_rows(model):
     """real code: a batch of two molecules with the same orbital layout and different electron counts (N2, O2), against each
     molecule computed alone."""
@@ -327,5 +444,5 @@ def task_density_rows(ctx):
     ctx.assume_note("A2: the eigen-solver returns some eigenvector matrix per molecule (columns ascending in energy); CHECK_DEGENERACY off (module default)")
 
 
-TASKS_QUICK = ["density_rows", "parser_rows", "fock_rows", "pack_unpack", "coupled_ops"]
+TASKS_QUICK = ["density_rows", "fermi_rows", "parser_rows", "fock_rows", "pack_unpack", "coupled_ops"]
 TASKS_THOROUGH = TASKS_QUICK
